@@ -264,7 +264,7 @@ fn tag_use() -> impl Strategy<Value = TagUse> {
     ]
 }
 
-fn doc_spec() -> impl Strategy<Value = DocSpec> {
+pub fn doc_spec() -> impl Strategy<Value = DocSpec> {
     (
         proptest::option::weighted(0.3, 0usize..4),
         proptest::collection::vec((0..HANDLES.len(), 0..PREFIXES.len()), 0..4),
@@ -290,7 +290,7 @@ fn doc_spec() -> impl Strategy<Value = DocSpec> {
 
 /// Remove the situations the property leaves open: with keep_tags a later document never
 /// re-declares a handle declared earlier (I7).
-fn normalise(mut docs: Vec<DocSpec>, keep_tags: bool) -> Vec<DocSpec> {
+pub fn normalise(mut docs: Vec<DocSpec>, keep_tags: bool) -> Vec<DocSpec> {
     if keep_tags {
         let mut declared: Vec<usize> = vec![];
         for d in docs.iter_mut() {
@@ -303,7 +303,7 @@ fn normalise(mut docs: Vec<DocSpec>, keep_tags: bool) -> Vec<DocSpec> {
     docs
 }
 
-fn spec_json(docs: &[DocSpec], keep: bool) -> Value {
+pub fn spec_json(docs: &[DocSpec], keep: bool) -> Value {
     let tu = |t: &TagUse| match t {
         TagUse::None => json!(null),
         TagUse::NonSpecific => json!({"k": "ns"}),
